@@ -85,7 +85,62 @@ impl BG {
 
     fn fragment(&mut self) -> Vec<Stmt> {
         let mut v = Vec::new();
-        match self.rng.below(16) {
+        match self.rng.below(20) {
+            16 => {
+                // register holds a known constant, changes by ++ / -- (or is copied), is compared
+                let r = self.reg();
+                let k = self.rng.range(1, 6) as i32;
+                v.push(assign(r.clone(), num(k)));
+                v.push(Stmt::Expr(Expr::IncDec { lv: r.clone(), post: self.rng.chance(1, 2), inc: self.rng.chance(1, 2) }));
+                let tested = if self.rng.chance(1, 3) {
+                    // through the other register
+                    let o = if r == LV::X { LV::Y } else { LV::X };
+                    v.push(assign(o.clone(), Expr::Lv(r.clone())));
+                    o
+                } else if self.rng.chance(1, 3) {
+                    v.push(assign(LV::Var(A), Expr::Lv(r.clone())));
+                    LV::Var(A)
+                } else {
+                    r
+                };
+                let kk = k + self.rng.range(-1, 1) as i32;
+                let op = *self.rng.pick(&[BinOp::Eq, BinOp::Ne]);
+                v.push(Stmt::If(bin(op, Expr::Lv(tested), num(kk)), Box::new(assign(LV::Var(C), num(1))), Some(Box::new(assign(LV::Var(C), num(2))))));
+            }
+            17 => {
+                // register loaded from a variable, the variable overwritten from elsewhere
+                // (no accumulator involved), register reloaded from the variable
+                let r = self.reg();
+                let o = if r == LV::X { LV::Y } else { LV::X };
+                let a = self.scalar();
+                v.push(assign(r.clone(), lvv(a)));
+                match self.rng.below(3) {
+                    0 => v.push(assign(LV::Var(a), Expr::Lv(o))),
+                    1 => v.push(Stmt::Expr(Expr::IncDec { lv: LV::Var(a), post: true, inc: true })),
+                    _ => v.push(assign(LV::Var(a), Expr::Lv(r.clone()))),
+                }
+                v.push(assign(r.clone(), lvv(a)));
+                if self.rng.chance(1, 2) {
+                    v.push(Stmt::If(Expr::Lv(r.clone()), Box::new(assign(LV::Var(C), num(1))), None));
+                }
+                v.push(assign(LV::Var(BV), Expr::Lv(r)));
+            }
+            18 if self.has_f => {
+                // X known, a call that changes X, X compared with what it was
+                let k = *self.rng.pick(&[2, 6, 7]);
+                v.push(assign(LV::X, num(k)));
+                v.push(Stmt::Expr(Expr::Call(0, vec![])));
+                let op = *self.rng.pick(&[BinOp::Eq, BinOp::Ne]);
+                v.push(Stmt::If(bin(op, Expr::Lv(LV::X), num(k)), Box::new(assign(LV::Var(R), num(1))), Some(Box::new(assign(LV::Var(R), num(2))))));
+            }
+            19 => {
+                // a value known in A reaches a label from two paths with different A
+                let a = self.scalar();
+                let b = self.scalar();
+                v.push(assign(LV::Var(R), bin(BinOp::Lt, lvv(a), lvv(b))));
+                v.push(assign(LV::Var(C), num(1)));
+                v.push(assign(LV::Var(N), num(2)));
+            }
             0 => {
                 // reload of a known immediate:  a = K; <inv>; b = K;
                 let a = self.scalar();
